@@ -294,7 +294,7 @@ async def _scenario(loop, case: dict):
                 return 'ok'
             if k in ('level', 'root', 'close'):
                 c = op[1]
-                if c >= len(w.remotes) or not remote_open(w.remotes[c]):
+                if not isinstance(c, int) or c < 0 or c >= len(w.remotes) or not remote_open(w.remotes[c]):
                     return 'no-conn'
                 r = w.remotes[c]
                 if k == 'level':
@@ -547,6 +547,14 @@ def _gen_case(rng: random.Random, kind: Optional[str] = None) -> dict:
         if rng.random() < 0.7:                 # the parent announces again
             for o in announce(base + rng.randrange(len(a)), rng.choice(['l', 'r', 'lr', 'l'])):
                 do(o)
+        if rng.random() < 0.45:                # a candidate / the parent goes away, a new round starts
+            do(['close', base + rng.randrange(len(a))])
+            if rng.random() < 0.5:
+                before = nconn
+                do(['pp', [rng.choice(peers)]])
+                if nconn > before:             # only when the proposal really created a connection (session up)
+                    for o in announce(nconn - 1):
+                        do(o)
     elif kind == 'child':
         do(['in', rng.choice(peers)])
         if rng.random() < 0.5:
@@ -680,6 +688,10 @@ class C13(Property):
         res = KResult()
         cases = self.cases(seed, tier, widen)
         impl = common.parallel_map(_eval_case, cases, chunksize=4)
+        for i, r in enumerate(impl):          # rule out load-induced flakiness: errors are re-run serially once
+            if 'error' in r:
+                impl[i] = _eval_case(cases[i])
+                res.notes.append(f'case {i} errored once ({r["error"][:80]}), re-run serially')
         model = None
         if model_ok:
             lines, spans = [], []
@@ -708,6 +720,27 @@ class C13(Property):
             tr = r['trace']
             if any(s['parent'] is not None or s['children'] for s in tr):
                 res.nontrivial_keys.add(common.sha(c['ops']))
+            prev = None
+            for op, s in zip(c['ops'], tr):
+                if prev is not None:
+                    if prev['parent'] is None and s['parent'] is not None:
+                        res.count('event:parent-set')
+                    if prev['parent'] is not None and s['parent'] is None:
+                        res.count('event:parent-lost')
+                    if prev['parent'] is not None and prev['parent'] == s['parent'] and \
+                            (prev['parent_level'], prev['parent_root']) != (s['parent_level'], s['parent_root']):
+                        res.count('event:parent-reannounced')
+                    if any(x not in prev['children'] for x in s['children']):
+                        res.count('event:child-added')
+                    if any(x not in s['children'] for x in prev['children']):
+                        res.count('event:child-removed')
+                    if op[0] == 'in' and s['status'] == 'ok' and len(s['children']) == len(prev['children']):
+                        res.count('event:incoming-not-admitted')
+                    if op[0] in ('level', 'root') and s['status'] == 'ok' and op[1] in prev['children']:
+                        res.count('event:child-announces')
+                    if s['parent_root'] == ME and s['parent'] is not None:
+                        res.count('state:degenerate-root')
+                prev = s
             for s in tr:
                 if s['parent'] is not None:
                     res.count('state:has-parent')
